@@ -1,4 +1,4 @@
-# needs: (no fixes — the check is clean on the pinned tree)
+# needs: fixes/C20-supertriangle-relative-margin.patch
 from cfgcommon import COMMON_ASSUME
 
 CFG = {
@@ -6,12 +6,12 @@ CFG = {
 "technique": "bounded-exhaustive enumeration of lattice point sets × insertion orders × exact similarity transforms, judged by exact integer orientation / in-circle / separating-axis predicates",
 "jobs": [{"variant": "plain-c20", "id": "C20"}],
 "engine": "enum",
-"level_text": "Every subset of size 3..6 (thorough: 3..7) of the 5×5 integer lattice is triangulated by the real triangulation.BowyerWatson, the general-position ones (no three collinear, no four cocircular, decided exactly) additionally in every insertion order up to size 4 (thorough: 5), each under 8 exact transforms (identity, scale 2^10, 2^-10, 2^-3, offsets (±1024, ±1024)). The result mesh is judged by exact integer predicates on the lattice coordinates: Position[i] is bit-exactly input point i, indices in range, one winding, non-zero area, pairwise disjoint interiors (separating-axis test, cross-checked against exact rational clipping in the package tests), empty circumcircles. Exhaustive within these bounds.",
-"level_note": "Trusted: the integer predicates in harness/props/c20 (cross-checked in c20_test.go against rational circumcentres and rational polygon clipping). Degenerate subsets are executed and labelled but never alarmed. An empty triangle list satisfies the statement vacuously and is reported as outcome label 'empty' (hull coverage is likewise only reported: 'ok-hull-covered' / 'ok-hull-not-covered'). Point sets outside the lattice family (other magnitudes, non-dyadic coordinates, more than 7 points) are not claimed.",
+"level_text": "Every subset of size 3..6 (thorough: 3..8) of the 5×5 integer lattice is triangulated by the real triangulation.BowyerWatson; the general-position ones (no three collinear, no four cocircular, decided exactly) additionally in every insertion order up to size 4 (thorough: up to size 5 under every transform and size 6 under identity, 27/256 and offset (+1024,-1024)); each under 10 exact transforms: identity, scales 2^10, 2^-10, 2^-3, the two dyadic scales 27/256 and 27/1024 that straddle SuperTriangle's own height threshold, offsets (±1024, ±1024). The result mesh is judged by exact integer predicates on the lattice coordinates: Position[i] is bit-exactly input point i as (x, 0, y), indices in range, one winding, non-zero area, pairwise disjoint interiors (separating-axis test), empty circumcircles. Exhaustive within these bounds.",
+"level_note": "Trusted: the integer predicates in harness/props/c20 (cross-checked in c20_test.go against rational circumcentres and exact rational polygon clipping). Degenerate subsets (collinear triple / cocircular quadruple) are executed and labelled but never alarmed. All clauses of the statement quantify over the triangles of the result, so an empty triangle list satisfies them vacuously: it is reported as outcome label 'empty', not alarmed (job arg demand_nonempty=1 turns it into a violation); hull coverage is likewise only reported ('ok-hull-covered' / 'ok-hull-not-covered'). Point sets outside the lattice family (other magnitudes, non-dyadic coordinates, more than 8 points, aspect ratios above 4) are not claimed.",
 "rule": "one evaluation = one (ordered lattice point sequence, transform) triangulated and judged; non-trivial = general-position input whose result has at least one triangle; distinct by (ordered point sequence, transform)",
 "assumptions": COMMON_ASSUME + [
-    "positive power-of-two scaling and integer translation are exact on these coordinates and preserve orientation / in-circle relations, so the predicates may be evaluated on the lattice preimages once Position[i] is verified bit-exactly",
+    "positive scaling and translation by the enumerated dyadic constants are exact on these coordinates (verified per case) and preserve orientation / in-circle relations, so the predicates are evaluated on the lattice preimages once Position[i] has been verified bit-exactly",
     "the order in which triangles are emitted is not part of the contract (compared as a set)",
 ],
-"budget": {"quick": 60, "thorough": 900},
+"budget": {"quick": 75, "thorough": 1200},
 }
